@@ -364,6 +364,26 @@ Definition radius_of (t : string) : option Z :=
       end
   end.
 
+(* Mol2Atom.assign_radius(primary_dict, secondary_dict) for ARBITRARY tables
+   (assign_radii / assign_parameters pass the caller's two dictionaries through
+   unchanged): primary[type], primary[ELEMENT], secondary[type],
+   secondary[ELEMENT]; None = KeyError.  [radius_of] is the instance with the
+   default arguments (RADII["zap9"], RADII["bondi"]). *)
+Definition radius_from (p s : list (string * Z)) (t : string) : option Z :=
+  let e := upper (before_dot t) in
+  match lookup t p with
+  | Some r => Some r
+  | None =>
+      match lookup e p with
+      | Some r => Some r
+      | None =>
+          match lookup t s with
+          | Some r => Some r
+          | None => lookup e s
+          end
+      end
+  end.
+
 Fixpoint all_some {V : Type} (l : list (option V)) : option (list V) :=
   match l with
   | [] => Some []
@@ -602,6 +622,10 @@ Definition run_formal (raw_types : list string) (bonds : list (nat * nat * strin
               ++ "|" ++ show_list (fun i => Z_to_string (bond_order m i)) (seq 0 (m_n m))
   | None => "EXC"
   end.
+
+(* assign_radii(primary, secondary) on a list of (normalised) types *)
+Definition run_radii (p s : list (string * Z)) (types : list string) : string :=
+  show_list (fun t => show_opt Z_to_string (radius_from p s t)) types.
 
 (* tables, rendered for comparison with the dictionaries of /repo *)
 Definition show_tables : string :=
